@@ -129,9 +129,24 @@ def _run(ck, m):
                         t_store = any(rb.dominates(tt, y) for y in stores)
                         f_store = any(rb.dominates(ft, y) and not rb.dominates(tt, y) for y in stores)
                         t_set = any(rb.dominates(ft, y) for y, _ in sets)
-                        okb = op == 'Gt' and t_store and not f_store and t_set
+                        # the winner is re-applied unconditionally: the store call post-dominates the winning edge (a second look at the
+                        # key that lets "landed later" stand for "issued later" drops the newest change)
+                        t_always = any(rb.postdominates(y, tt) or y == tt for y in stores)
+                        # and the losing side touches nothing: no store, no notification of watchers
+                        f_reg = {x2 for x2 in region if rb.dominates(ft, x2) and not rb.dominates(tt, x2)}
+                        f_effects = [rb.loc(x2) for x2 in f_reg if rb.term(x2)['k'] == 'call' and not is_log(rb.term(x2))
+                                     and P.bodies.get(callee(rb.term(x2))) is not None
+                                     and (callee(rb.term(x2)) == sb.id or 'notify' in callee(rb.term(x2)) or
+                                          any(callee_decl(t3).endswith('mpsc::Sender::try_send') for _, t3 in P.bodies[callee(rb.term(x2))].calls()))]
+                        okb = op == 'Gt' and t_store and not f_store and t_set and t_always and not f_effects
+                        if op == 'Gt' and t_store and not f_store and t_set and not t_always:
+                            extra_why = ' — the re-apply can be skipped on the winning side (the store call does not post-dominate it): the most recently issued change is dropped when another write landed in between'
+                        elif f_effects:
+                            extra_why = ' — the losing side has effects (%s): watchers are told of a change although nothing was stored' % f_effects
+                        else:
+                            extra_why = ''
                         whyb = ('change.opp_id > old_value.opp_id -> re-apply through the store, else keep' if okb else
-                                'comparison change.opp_id %s old_value.opp_id: true->store=%s false->store=%s false->Set=%s' % (op, t_store, f_store, t_set))
+                                'comparison change.opp_id %s old_value.opp_id: true->store=%s false->store=%s false->Set=%s%s' % (op, t_store, f_store, t_set, extra_why))
     ck.ob('C19.b', fn, 'newer-comparison', okb, whyb, rb.loc(newer))
     # (c) the change handed to the store
     okc = False
